@@ -15,7 +15,7 @@ from ..flow import Engine, TooManyStates
 from ..consttrack import ConstTracker
 from ..failflow import compute_fail_summaries, failure_value_kind, EXT_FAIL_NULL
 from ..util import base_var, is_null
-from .r18_atomic import Roots, obj_params, LATE_FAILURE_FILES
+from .r18_atomic import Roots, obj_params, carrier_params, LATE_FAILURE_FILES
 
 # one symbol wide, one line of reason each
 EXCEPTIONS = {
@@ -96,7 +96,7 @@ class CommitTracker(ConstTracker):
         nulledge = None
         if c.k == "BinaryOperator" and c.op in ("==", "!="):
             a, b = c.kids[0].strip(), c.kids[1].strip()
-            if a.k == "BinaryOperator" and a.op == "=":
+            while a.k == "BinaryOperator" and a.op == "=":    # also `p = q = calloc(..)`
                 a = a.kids[1].strip()
             bv = b.cv if b.cv is not None else (0 if is_null(b) else None)
             if a.k == "CallExpr" and bv is not None:
@@ -184,7 +184,7 @@ def run(P, tier="quick"):
             a0 = c.args()[0].strip() if c.args() else None
             if a0 is not None and a0.k == "DeclRefExpr" and a0.refdecl in extra:
                 extra.pop(a0.refdecl)
-        if not obj_params(f) and not extra:
+        if not obj_params(f) and not extra and not carrier_params(f):     # (an argument structure passed by value carries the object)
             continue
         tr = CommitTracker(P, f, sysfail, modes)
         for d, i in extra.items():
@@ -192,16 +192,16 @@ def run(P, tier="quick"):
         try:
             Engine(f, tr, 300000).run()
         except TooManyStates as e:
-            R.unclassified("R19b|%s|%s" % (f.file, f.name), str(e), {"C12"})
+            R.unclassified("R19b|%s|%s" % (f.file, f.name), str(e), {"C12", "C11"})
             continue
         if tr.nallocfail == 0:
             continue
         nf += 1
         if not tr.violations:
-            R.ok("R19b|%s|%s" % (f.file, f.name), {"C12"})
+            R.ok("R19b|%s|%s" % (f.file, f.name), {"C12", "C11"})
             continue
         for fld, (mut, fail, trace) in sorted(tr.violations.items(), key=lambda kv: str(kv[0])):
-            R.violated(Finding("R19b", {"C12"}, f.file, f.name, "commit:%s" % fld,
+            R.violated(Finding("R19b", {"C12", "C11"}, f.file, f.name, "commit:%s" % fld,
                                "%s at line %d changes the object before %s() at line %d, whose failure makes the call return its "
                                "failure value without undoing it: a failed call leaves a trace and the repeated call behaves "
                                "differently" % (mut.text()[:60] if mut is not None else fld, mut.line if mut is not None else 0,
